@@ -216,7 +216,7 @@ def run_specs(ctx, binary, specs, name):
             date, msgid = dataq.oracle_strings(w.snap, hand[0] if hand else b'')
             mlines.append(dataq.model_line(w, streams[k] if k < len(streams) else b'', date, msgid))
             meta.append((si, k, w, hand, date, msgid))
-    mouts = vlib.run_batch(ctx.driver, mlines) if ctx.driver and mlines else ['NO-DRIVER'] * len(mlines)
+    mouts = dataq.run_model(ctx, mlines)
     dis, plines, pmeta, fails = [], [], [], []
     for (si, k, w, hand, date, msgid), mo in zip(meta, mouts):
         spec, (sc, plan, txs), r = specs[si], built[si], results[si]
